@@ -27,6 +27,10 @@ func init() {
 			"every cycle of every unbounded loop of the recursive-descent parser consumes a real (known non-EOF) token before it returns to the loop head, or leaves the loop (consume / consume-or-report summaries with and without a peeked token, report.HasErrors() edges). " +
 			"Not decided: absence of panics on arbitrary bytes, positions inside the input, print∘parse round-trip equality as values, limit accounting (value level), depth of recursion.",
 		Mutants: []Mutant{
+			{Name: "any byte that starts no other token starts an identifier (reverts part of the F101 fix)", File: "v2/pkg/lexer/lexer.go", Rule: "C05-R15", Key: "Lexer.Read/ident-token-starts-with-a-name-start",
+				Old: "\tif !runeIsNameStart(next) {", New: "\tif false && !runeIsNameStart(next) {"},
+			{Name: "a NUL byte read from the input is handed out as the EOF sentinel (reverts part of the F101 fix)", File: "v2/pkg/lexer/lexer.go", Rule: "C05-R16", Key: "Lexer.readRune/sentinel-not-read-from-the-input",
+				Old: "\t\tif r == runes.EOF {\n\t\t\t// a NUL byte in the input is not the end of the input", New: "\t\tif false {\n\t\t\t// a NUL byte in the input is not the end of the input"},
 			{Name: "an anonymous query with a description is printed in shorthand form (reverts the F97 fix)", File: "v2/pkg/astprinter/astprinter.go", Rule: "C05-R14", Key: "printVisitor.EnterOperationDefinition/description-followed-by-a-head",
 				Old: "if hasName || hasVariables || hasDirectives || hasDescription {", New: "if hasName || hasVariables || hasDirectives {"},
 			{Name: "the exponent sign is not looked for when the number has no fraction (reverts the F82 fix)", File: "v2/pkg/lexer/lexer.go", Rule: "C05-R13", Key: "Lexer.readFloat/exponent-sign-before-digits",
@@ -102,6 +106,8 @@ func runC05(r *fw.Run) {
 	defer c05NamesComeFromIdentTokens(r)
 	defer c05ExponentSignOnEveryPath(r)
 	defer c05PrintedDescriptionIsFollowedByTheDefinitionHead(r)
+	defer c05IdentTokensStartWithANameStart(r)
+	defer c05SentinelIsNotReadFromTheInput(r)
 
 	// ---- R1 loop progress ------------------------------------------------------------------------
 	r.Rule("C05-R1", "every unbounded loop of the lexer, the tokenizer and the Cache-Control lexer/parser consumes input on each cycle back to its head and has an exit guarded by an end-of-input test")
@@ -2768,4 +2774,357 @@ func c05PrintedDescriptionIsFollowedByTheDefinitionHead(r *fw.Run) {
 			fi.Name()+" returns on a path that may have printed a description and wrote only white space after it: `\"the description\" query { a }` is printed as `\"the description\"<LF>{a}`, and the parser, which accepts a description only in front of a keyword, rejects it (`got: LBRACE want one of: [IDENT]`) — the printed text does not re-parse")
 	}
 	r.Expect("C05-R14", "printer callbacks that print a description", n, 1)
+}
+
+// foldBytePredicate evaluates e for obj = v where e is built from comparisons of obj with constants, !, && and ||, and
+// calls of one-parameter bool functions of the loaded packages whose body is `return <such an expression>` or a tag-less
+// switch of such conditions returning constants: 1 true, 0 false, -1 unknown.
+func foldBytePredicate(p *fw.Prog, info *types.Info, e ast.Expr, obj types.Object, v int64, depth int) int {
+	e = ast.Unparen(e)
+	operand := func(x ast.Expr) constant.Value {
+		x = ast.Unparen(x)
+		if id, isID := x.(*ast.Ident); isID && info.Uses[id] == obj {
+			return constant.MakeInt64(v)
+		}
+		if tv, ok := info.Types[x]; ok && tv.Value != nil {
+			if iv := constant.ToInt(tv.Value); iv.Kind() == constant.Int {
+				return iv
+			}
+		}
+		return nil
+	}
+	switch x := e.(type) {
+	case *ast.UnaryExpr:
+		if x.Op == token.NOT {
+			if r := foldBytePredicate(p, info, x.X, obj, v, depth); r >= 0 {
+				return 1 - r
+			}
+		}
+	case *ast.BinaryExpr:
+		switch x.Op {
+		case token.LAND, token.LOR:
+			l, r := foldBytePredicate(p, info, x.X, obj, v, depth), foldBytePredicate(p, info, x.Y, obj, v, depth)
+			absorbing := 0
+			if x.Op == token.LOR {
+				absorbing = 1
+			}
+			switch {
+			case l == absorbing || r == absorbing:
+				return absorbing
+			case l < 0 || r < 0:
+				return -1
+			}
+			return 1 - absorbing
+		case token.EQL, token.NEQ, token.LSS, token.LEQ, token.GTR, token.GEQ:
+			l, r := operand(x.X), operand(x.Y)
+			if l == nil || r == nil {
+				return -1
+			}
+			if constant.Compare(l, x.Op, r) {
+				return 1
+			}
+			return 0
+		}
+	case *ast.CallExpr:
+		if depth > 3 || len(x.Args) != 1 {
+			return -1
+		}
+		id, isID := ast.Unparen(x.Args[0]).(*ast.Ident)
+		if !isID || info.Uses[id] != obj {
+			return -1
+		}
+		g := p.FuncOf(fw.Callee(info, x))
+		if g == nil {
+			return -1
+		}
+		sig := g.Obj.Type().(*types.Signature)
+		if sig.Params().Len() != 1 || sig.Results().Len() != 1 {
+			return -1
+		}
+		ginfo, param := g.Info(), sig.Params().At(0)
+		for _, st := range g.Decl.Body.List {
+			switch y := st.(type) {
+			case *ast.ReturnStmt:
+				if len(y.Results) == 1 {
+					if c, isC := fw.ConstVal(ginfo, y.Results[0]); isC {
+						if c == "true" {
+							return 1
+						}
+						return 0
+					}
+					return foldBytePredicate(p, ginfo, y.Results[0], param, v, depth+1)
+				}
+			case *ast.SwitchStmt:
+				if y.Tag != nil || y.Init != nil {
+					return -1
+				}
+				for _, cl := range y.Body.List {
+					cc := cl.(*ast.CaseClause)
+					hit := cc.List == nil
+					for _, ce := range cc.List {
+						switch foldBytePredicate(p, ginfo, ce, param, v, depth+1) {
+						case 1:
+							hit = true
+						case -1:
+							return -1
+						}
+					}
+					if !hit {
+						continue
+					}
+					if len(cc.Body) == 1 {
+						if ret, isRet := cc.Body[0].(*ast.ReturnStmt); isRet && len(ret.Results) == 1 {
+							if c, isC := fw.ConstVal(ginfo, ret.Results[0]); isC {
+								if c == "true" {
+									return 1
+								}
+								return 0
+							}
+						}
+					}
+					return -1
+				}
+			default:
+				return -1
+			}
+		}
+	}
+	return -1
+}
+
+// c05IdentTokensStartWithANameStart (R15): a Name starts with a letter or an underscore, and every name of the document
+// is the text of an IDENT token (R12). The lexer's Read tries the single-byte tokens, comments, strings, dots and digits
+// and then falls through to "identifier". Without a test on that fall-through any other byte — `%`, `~`, a control
+// character, half a UTF-8 sequence — becomes an IDENT token of its own, and `{a % b}` is a document with a field called
+// `%`. Rule: the assignment of keyword.IDENT in Lexer.Read is reached only under a condition on the byte that started the
+// token which — constant-folded, through the lexer's class predicates — is true for a, z, A, Z and _ and false for
+// 0x01, %, ~, backtick, 0x7f, 0x80, 0xc3 and 0xff.
+func c05IdentTokensStartWithANameStart(r *fw.Run) {
+	p := r.Prog
+	r.Rule("C05-R15", "Lexer.Read assigns keyword.IDENT only under a test of the token's first byte that folds to true for letters and underscore and to false for bytes that start no token (%, ~, control characters, bytes >= 0x80)")
+	fi := p.Func("lexer", "Lexer.Read")
+	if fi == nil {
+		r.Error("C05-R15: lexer.Lexer.Read not found")
+		return
+	}
+	info := fi.Info()
+	accept := []int64{'a', 'z', 'A', 'Z', '_'}
+	reject := []int64{0x01, '%', '~', '`', 0x7f, 0x80, 0xc3, 0xff}
+	// the byte variable: a local of type byte assigned from a call (readRune)
+	n := 0
+	in := fw.NewInterp(fi)
+	in.H = fw.Hooks{
+		Lit: func(l *ast.FuncLit, ctx fw.LitCtx, st *fw.State) fw.LitMode { return fw.LitSkip },
+		Cond: func(e ast.Expr, branch bool, st *fw.State) {
+			// which byte-typed local does the condition talk about?
+			var obj types.Object
+			fw.WalkAll(e, func(x ast.Node) bool {
+				if id, ok := x.(*ast.Ident); ok {
+					if v, isVar := info.Uses[id].(*types.Var); isVar && types.Identical(v.Type(), types.Typ[types.Byte]) {
+						obj = v
+					}
+				}
+				return true
+			})
+			if obj == nil {
+				return
+			}
+			want := 1
+			if !branch {
+				want = 0
+			}
+			for _, v := range accept {
+				if foldBytePredicate(p, info, e, obj, v, 0) != want {
+					return
+				}
+			}
+			for _, v := range reject {
+				if foldBytePredicate(p, info, e, obj, v, 0) != 1-want {
+					return
+				}
+			}
+			st.Set("name-start")
+		},
+		Node: func(nd ast.Node, st *fw.State) {
+			as, ok := nd.(*ast.AssignStmt)
+			if !ok || !in.Final() || len(as.Lhs) != 1 || len(as.Rhs) != 1 {
+				return
+			}
+			if k := fw.ConstObj(info, as.Rhs[0]); k == nil || k.Name() != "IDENT" {
+				return
+			}
+			n++
+			r.Check(st.Must("name-start"), "C05-R15", fi.Name()+"/ident-token-starts-with-a-name-start", p.Pos(as.Pos()), "keyword.IDENT is assigned in "+fi.Name()+" only after the first byte passed a name-start test",
+				fi.Name()+" falls through to keyword.IDENT for every byte that starts no other token: `{a % b}`, `{ % }`, `query % { a }`, `{a(%: 1)}` are accepted — documents with a field, an operation or an argument called `%` — and `{a ä b}` is accepted with two fields called 0xc3 and 0xa4: names that are no Names")
+		},
+	}
+	in.Run(nil)
+	r.Expect("C05-R15", "assignments of keyword.IDENT in Lexer.Read", n, 1)
+}
+
+// c05SentinelIsNotReadFromTheInput (R16): the lexer signals the end of the input with the byte value runes.EOF (0), and
+// every consumer compares what readRune returned with it. A NUL byte that stands in the input must therefore not come out
+// of readRune as it is: strings and comments would end there and between tokens lexing would stop, silently dropping the
+// rest (`{a}<NUL> anything` accepted as `{a}`). Rule: in every function of the lexer that returns the sentinel constant for
+// "no input left" and whose result some caller compares with the sentinel, each exit is reached after the result was
+// assigned the sentinel constant itself, or — after an assignment from the input bytes — on the unequal edge of a
+// comparison with the sentinel or after a re-assignment from another constant (one correlated fact).
+func c05SentinelIsNotReadFromTheInput(r *fw.Run) {
+	p := r.Prog
+	r.Rule("C05-R16", "a lexer function whose result callers compare with the EOF sentinel hands out a byte read from the input only after it was compared with the sentinel (unequal edge) or replaced by another constant")
+	isEOF := func(info *types.Info, e ast.Expr) bool {
+		c := fw.ConstObj(info, e)
+		return c != nil && c.Name() == "EOF"
+	}
+	// functions whose result is compared with the sentinel by a caller
+	compared := map[*types.Func]bool{}
+	for _, g := range p.Funcs("lexer") {
+		ginfo := g.Info()
+		from := map[types.Object]*types.Func{}
+		fw.WalkAll(g.Decl.Body, func(nd ast.Node) bool {
+			if as, ok := nd.(*ast.AssignStmt); ok && len(as.Lhs) == len(as.Rhs) {
+				for i, l := range as.Lhs {
+					if id, isID := l.(*ast.Ident); isID {
+						if c, isC := ast.Unparen(as.Rhs[i]).(*ast.CallExpr); isC {
+							if fn := fw.Callee(ginfo, c); fn != nil && fn.Pkg() == g.Obj.Pkg() {
+								from[ginfo.ObjectOf(id)] = fn
+							}
+						}
+					}
+				}
+			}
+			return true
+		})
+		srcOf := func(e ast.Expr) *types.Func {
+			e = ast.Unparen(e)
+			if id, ok := e.(*ast.Ident); ok {
+				return from[ginfo.Uses[id]]
+			}
+			if c, ok := e.(*ast.CallExpr); ok {
+				return fw.Callee(ginfo, c)
+			}
+			return nil
+		}
+		fw.WalkAll(g.Decl.Body, func(nd ast.Node) bool {
+			switch x := nd.(type) {
+			case *ast.SwitchStmt:
+				if x.Tag == nil {
+					return true
+				}
+				fn := srcOf(x.Tag)
+				if fn == nil {
+					return true
+				}
+				for _, cl := range x.Body.List {
+					for _, ce := range cl.(*ast.CaseClause).List {
+						if isEOF(ginfo, ce) {
+							compared[fn] = true
+						}
+					}
+				}
+			case *ast.BinaryExpr:
+				if x.Op == token.EQL || x.Op == token.NEQ {
+					if isEOF(ginfo, x.Y) {
+						if fn := srcOf(x.X); fn != nil {
+							compared[fn] = true
+						}
+					}
+					if isEOF(ginfo, x.X) {
+						if fn := srcOf(x.Y); fn != nil {
+							compared[fn] = true
+						}
+					}
+				}
+			}
+			return true
+		})
+	}
+	n := 0
+	for _, fi := range p.Funcs("lexer") {
+		if !compared[fi.Obj] {
+			continue
+		}
+		info := fi.Info()
+		sig := fi.Obj.Type().(*types.Signature)
+		if sig.Results().Len() != 1 || !types.Identical(sig.Results().At(0).Type(), types.Typ[types.Byte]) {
+			continue
+		}
+		// does it read input bytes at all?
+		readsInput := false
+		fw.WalkAll(fi.Decl.Body, func(nd ast.Node) bool {
+			if ix, ok := nd.(*ast.IndexExpr); ok {
+				if fv, _ := fw.Field(info, ix.X); fv != nil && fv.Name() == "RawBytes" {
+					readsInput = true
+				}
+			}
+			return true
+		})
+		if !readsInput {
+			continue
+		}
+		isInputByte := func(e ast.Expr) bool {
+			ix, ok := ast.Unparen(e).(*ast.IndexExpr)
+			if !ok {
+				return false
+			}
+			fv, _ := fw.Field(info, ix.X)
+			return fv != nil && fv.Name() == "RawBytes"
+		}
+		ok := true
+		at := fi.Decl.Pos()
+		in := fw.NewInterp(fi)
+		in.H = fw.Hooks{
+			Lit: func(l *ast.FuncLit, ctx fw.LitCtx, st *fw.State) fw.LitMode { return fw.LitSkip },
+			Cond: func(e ast.Expr, branch bool, st *fw.State) {
+				a := fw.Atom(info, e, branch)
+				if a.Kind == "Ne" && (isEOF(info, a.X) || isEOF(info, a.Y)) {
+					st.Set("settled")
+				}
+			},
+			Node: func(nd ast.Node, st *fw.State) {
+				as, isAs := nd.(*ast.AssignStmt)
+				if !isAs || len(as.Lhs) != len(as.Rhs) {
+					return
+				}
+				for i := range as.Lhs {
+					switch {
+					case isInputByte(as.Rhs[i]):
+						st.Kill("settled")
+					default:
+						if _, isC := fw.ConstVal(info, as.Rhs[i]); isC {
+							st.Set("settled")
+						}
+					}
+				}
+			},
+			Exit: func(ret *ast.ReturnStmt, lit *ast.FuncLit, st *fw.State) {
+				if lit != nil || !in.Final() {
+					return
+				}
+				if ret != nil && len(ret.Results) == 1 {
+					if _, isC := fw.ConstVal(info, ret.Results[0]); isC {
+						return
+					}
+					if isInputByte(ret.Results[0]) {
+						ok = false
+						at = ret.Pos()
+						return
+					}
+				}
+				if !st.Must("settled") {
+					ok = false
+					if ret != nil {
+						at = ret.Pos()
+					} else {
+						at = fi.Decl.End()
+					}
+				}
+			},
+		}
+		in.Run(nil)
+		n++
+		r.Check(ok, "C05-R16", fi.Name()+"/sentinel-not-read-from-the-input", p.Pos(at), fi.Name()+" never hands out an input byte that equals the EOF sentinel",
+			fi.Name()+" returns a byte read from the input without having excluded the value of the EOF sentinel: a NUL byte in the input looks like the end of the input to every caller — `{a}<NUL> this is ) not { graphql` is accepted as `{a}`, `{a(b:\"x<NUL>,c:1)}` is accepted with the string ending at the NUL and prints to text that does not re-parse")
+	}
+	r.Expect("C05-R16", "lexer functions whose result callers compare with the sentinel", n, 1)
 }
